@@ -67,6 +67,38 @@ type Summary struct {
 	WritesGlob  map[*ssa.Global]Witness // package-level variable (memory reachable from it) -> witness
 	Concurrency []Witness               // go statements, channel operations, sync / atomic calls
 	RetAlias    map[int]originSet       // result index -> what the result may alias (param / free / global / fresh)
+	RetDeep     map[int]originSet       // result index -> origins of all memory reachable from the result (through stored pointers)
+	StoresInto  map[int]originSet       // parameter index -> origins of the pointer-like values stored into memory reachable from it
+}
+
+// SortedOrigins lists an origin set deterministically.
+func SortedOrigins(s originSet) []Origin {
+	var keys []string
+	for k := range s {
+		keys = append(keys, k)
+	}
+	sort.Strings(keys)
+	var out []Origin
+	for _, k := range keys {
+		out = append(out, s[k])
+	}
+	return out
+}
+
+// externalStores says which pointer-like arguments of a function outside the module may end up stored in (reachable
+// from) which other argument: pairs (dst, src), receiver = position 0.  known=false: every writable argument may
+// receive every argument.
+func externalStores(name string) (pairs [][2]int, known bool) {
+	switch {
+	case strings.HasPrefix(name, "(*golang.org/x/crypto/cryptobyte.String).Read"):
+		// ReadASN1(&out, tag), ReadASN1BitString(&out), ReadASN1Integer(&out) ...: `out` is made to point into the bytes
+		// the receiver is reading (cryptobyte never copies)
+		return [][2]int{{1, 0}}, true
+	}
+	if _, k := externalWrites(name); k {
+		return nil, true // hashes, big.Int, builders, readers: they copy bytes, they do not keep the caller's slices
+	}
+	return nil, false
 }
 
 // Analysis holds the summaries of all functions.
@@ -109,6 +141,7 @@ func pointerLike(t types.Type) bool {
 func externalWrites(name string) ([]int, bool) {
 	switch {
 	case strings.HasPrefix(name, "math/bits."), strings.HasPrefix(name, "crypto/subtle.ConstantTime"), name == "bytes.Clone", name == "bytes.Equal", name == "bytes.Repeat",
+		strings.HasPrefix(name, "slices.Clone["), strings.HasPrefix(name, "slices.Concat["), strings.HasPrefix(name, "slices.Equal["), name == "bytes.Join", name == "bytes.Compare",
 		name == "errors.New", name == "fmt.Errorf", name == "fmt.Sprintf", strings.HasPrefix(name, "strings."), strings.HasPrefix(name, "encoding/hex."),
 		name == "crypto/sha256.New", name == "crypto/sha256.Sum256", name == "crypto/hmac.New", strings.HasPrefix(name, "(crypto.Hash)."),
 		name == "gitlab.com/yawning/tuplehash.NewTupleHashXOF128", strings.HasPrefix(name, "(encoding/asn1.ObjectIdentifier)."), strings.HasPrefix(name, "(encoding/asn1.BitString)."),
@@ -163,7 +196,7 @@ func externalReturns(name string) ([]int, bool) {
 func Analyse(funcs []*ssa.Function, isModule func(string) bool) *Analysis {
 	a := &Analysis{Sum: map[*ssa.Function]*Summary{}, isModule: isModule, onceFuncs: map[*ssa.Function]bool{}, origins: map[*ssa.Function]map[ssa.Value]originSet{}}
 	for _, f := range funcs {
-		a.Sum[f] = &Summary{Fn: f, WritesParam: map[int]Witness{}, WritesFree: map[int]Witness{}, WritesGlob: map[*ssa.Global]Witness{}, RetAlias: map[int]originSet{}}
+		a.Sum[f] = &Summary{Fn: f, WritesParam: map[int]Witness{}, WritesFree: map[int]Witness{}, WritesGlob: map[*ssa.Global]Witness{}, RetAlias: map[int]originSet{}, RetDeep: map[int]originSet{}, StoresInto: map[int]originSet{}}
 	}
 	// function literals guarded by sync.Once
 	for _, f := range funcs {
@@ -244,6 +277,75 @@ func (a *Analysis) analyseFunc(f *ssa.Function) bool {
 		}
 		return org[v].addAll(s)
 	}
+	// deep closes a set of origins under "stored into a local object": fresh sites are replaced by the anonymous fresh
+	// origin plus everything stored (transitively) into them
+	deep := func(s originSet) originSet {
+		out := originSet{}
+		seen := map[int]bool{}
+		var walk func(t originSet)
+		walk = func(t originSet) {
+			for _, o := range t {
+				if o.Kind == "fresh" {
+					out.add(Origin{Kind: "fresh"})
+					if o.Index != 0 && !seen[o.Index] {
+						seen[o.Index] = true
+						walk(stored[o.Index])
+					}
+					continue
+				}
+				out.add(o)
+			}
+		}
+		walk(s)
+		return out
+	}
+	// content of the memory a pointer-like value points to
+	deref := func(s originSet) originSet {
+		out := originSet{}
+		for _, o := range s {
+			if o.Kind == "fresh" {
+				out.addAll(stored[o.Index])
+			} else {
+				out.add(o)
+			}
+		}
+		return out
+	}
+	storeInto := func(dst, val originSet) bool {
+		ch := false
+		for _, o := range dst {
+			if o.Kind == "fresh" && o.Index != 0 {
+				if stored[o.Index] == nil {
+					stored[o.Index] = originSet{}
+				}
+				if stored[o.Index].addAll(val) {
+					ch = true
+				}
+			}
+		}
+		return ch
+	}
+	// mapCallee translates origins of a callee summary into the caller's origins at a call site
+	mapCallee := func(s originSet, args []ssa.Value, in ssa.Instruction, com *ssa.CallCommon) originSet {
+		out := originSet{}
+		for _, o := range s {
+			switch o.Kind {
+			case "param":
+				if o.Index < len(args) {
+					out.addAll(get(args[o.Index]))
+				}
+			case "global":
+				out.add(o)
+			case "fresh":
+				out.addAll(freshAt(in))
+			case "free":
+				if mc, ok := com.Value.(*ssa.MakeClosure); ok && o.Index < len(mc.Bindings) {
+					out.addAll(get(mc.Bindings[o.Index]))
+				}
+			}
+		}
+		return out
+	}
 	// local propagation to a fixpoint (flow-insensitive)
 	for pass := 0; pass < 20; pass++ {
 		ch := false
@@ -323,6 +425,72 @@ func (a *Analysis) analyseFunc(f *ssa.Function) bool {
 						ch = addTo(v, get(bnd)) || ch
 					}
 				case ssa.CallInstruction:
+					// pointers the callee stores into its operands / into the object it returns
+					{
+						com := x.Common()
+						args := com.Args
+						if bi, isB := com.Value.(*ssa.Builtin); isB {
+							if bi.Name() == "append" && len(args) == 2 && pointerLike(args[1].Type()) {
+								if sl, ok := args[1].Type().Underlying().(*types.Slice); ok && pointerLike(sl.Elem()) {
+									ch = storeInto(freshAt(in), deref(get(args[1]))) || ch
+									ch = storeInto(get(args[0]), deref(get(args[1]))) || ch
+								}
+							}
+						} else if callee := com.StaticCallee(); callee != nil && a.Sum[callee] != nil && callee.Blocks != nil {
+							cs := a.Sum[callee]
+							for i, st := range cs.StoresInto {
+								if i < len(args) {
+									ch = storeInto(get(args[i]), mapCallee(st, args, in, com)) || ch
+								}
+							}
+							for r, rd := range cs.RetDeep {
+								if rs := callee.Signature.Results(); r < rs.Len() && isErrorType(rs.At(r).Type()) {
+									continue // error values are immutable; they are not part of the object returned beside them
+								}
+								inner := originSet{}
+								for _, o := range rd {
+									if o.Kind != "fresh" {
+										inner.add(o)
+									}
+								}
+								ch = storeInto(freshAt(in), mapCallee(inner, args, in, com)) || ch
+							}
+						} else if !(callee != nil && a.isModule != nil && callee.Pkg != nil && a.isModule(callee.Pkg.Pkg.Path())) {
+							name := ""
+							if callee != nil {
+								name = callee.String()
+							} else if com.IsInvoke() {
+								name = "(" + com.Value.Type().String() + ")." + com.Method.Name()
+							}
+							allArgs := args
+							if com.IsInvoke() {
+								allArgs = append([]ssa.Value{com.Value}, args...)
+							}
+							if pairs, known := externalStores(name); known {
+								for _, pr := range pairs {
+									if pr[0] < len(allArgs) && pr[1] < len(allArgs) {
+										ch = storeInto(get(allArgs[pr[0]]), deref(get(allArgs[pr[1]]))) || ch
+									}
+								}
+							} else if callee != nil || com.IsInvoke() {
+								every := originSet{}
+								for _, av := range allArgs {
+									if pointerLike(av.Type()) {
+										every.addAll(get(av))
+										every.addAll(deref(get(av)))
+									}
+								}
+								for _, av := range allArgs {
+									if holdsPointers(av.Type()) {
+										ch = storeInto(get(av), every) || ch
+									}
+								}
+								if isVal && pointerLike(v.Type()) {
+									ch = storeInto(freshAt(in), every) || ch
+								}
+							}
+						}
+					}
 					if !isVal || !pointerLike(v.Type()) {
 						continue
 					}
@@ -419,6 +587,25 @@ func (a *Analysis) analyseFunc(f *ssa.Function) bool {
 			}
 		}
 	}
+	// retain records pointer-like values stored into memory reachable from a parameter
+	retain := func(dst, val originSet) {
+		for _, o := range dst {
+			if o.Kind != "param" {
+				continue
+			}
+			if sum.StoresInto[o.Index] == nil {
+				sum.StoresInto[o.Index] = originSet{}
+			}
+			for _, v := range val {
+				if v.Kind == "param" && v.Index == o.Index {
+					continue // a pointer into the same object
+				}
+				if sum.StoresInto[o.Index].add(v) {
+					changed = true
+				}
+			}
+		}
+	}
 	for _, b := range f.Blocks {
 		for _, in := range b.Instrs {
 			if ret, ok := in.(*ssa.Return); ok {
@@ -437,6 +624,12 @@ func (a *Analysis) analyseFunc(f *ssa.Function) bool {
 							changed = true
 						}
 					}
+					if sum.RetDeep[r] == nil {
+						sum.RetDeep[r] = originSet{}
+					}
+					if sum.RetDeep[r].addAll(deep(get(rv))) {
+						changed = true
+					}
 				}
 			}
 		}
@@ -446,6 +639,9 @@ func (a *Analysis) analyseFunc(f *ssa.Function) bool {
 			switch x := in.(type) {
 			case *ssa.Store:
 				write(x.Addr, x.Pos(), "store")
+				if pointerLike(x.Val.Type()) {
+					retain(get(x.Addr), deep(get(x.Val)))
+				}
 			case *ssa.MapUpdate:
 				write(x.Map, x.Pos(), "map update")
 			case *ssa.Go:
@@ -496,6 +692,11 @@ func (a *Analysis) analyseFunc(f *ssa.Function) bool {
 				for j, w := range cs.WritesParam {
 					if j < len(args) {
 						write(args[j], in.Pos(), "passed to "+callee.Name()+", which writes it ("+w.What+")")
+					}
+				}
+				for j, st := range cs.StoresInto {
+					if j < len(args) {
+						retain(get(args[j]), deep(mapCallee(st, args, in, com)))
 					}
 				}
 				for g, w := range cs.WritesGlob {
@@ -551,6 +752,26 @@ func (a *Analysis) analyseFunc(f *ssa.Function) bool {
 					}
 				}
 				continue
+			}
+			if pairs, knownS := externalStores(name); knownS {
+				for _, pr := range pairs {
+					if pr[0] < len(allArgs) && pr[1] < len(allArgs) {
+						retain(get(allArgs[pr[0]]), deep(deref(get(allArgs[pr[1]]))))
+					}
+				}
+			} else {
+				every := originSet{}
+				for _, av := range allArgs {
+					if pointerLike(av.Type()) {
+						every.addAll(get(av))
+						every.addAll(deref(get(av)))
+					}
+				}
+				for _, av := range allArgs {
+					if holdsPointers(av.Type()) {
+						retain(get(av), deep(every))
+					}
+				}
 			}
 			pos, known := externalWrites(name)
 			if !known {
@@ -625,4 +846,22 @@ func (s *Summary) SortedGlobals() []*ssa.Global {
 	}
 	sort.Slice(out, func(i, j int) bool { return out[i].String() < out[j].String() })
 	return out
+}
+
+// holdsPointers reports whether memory reached through a value of this type can itself hold pointers
+// (a []byte or *[32]byte cannot; a *[]byte, a *struct{p *T} or a []*T can).
+func holdsPointers(t types.Type) bool {
+	switch u := t.Underlying().(type) {
+	case *types.Pointer:
+		return pointerLike(u.Elem())
+	case *types.Slice:
+		return pointerLike(u.Elem())
+	case *types.Map, *types.Interface, *types.Chan, *types.Signature:
+		return true
+	}
+	return false
+}
+
+func isErrorType(t types.Type) bool {
+	return types.Identical(t, types.Universe.Lookup("error").Type())
 }
